@@ -16,6 +16,7 @@ package xrespondent
 //@   elem_invariant recvQ: elem != nil && !shared(elem)
 //@
 //@ struct pipe
+//@   never_closed: sendQ
 //@   immutable: p s closeQ sendQ
 //@
 //@ func (*pipe).receiver
